@@ -514,6 +514,45 @@ def empty_stages(rng, count):
     return out
 
 
+def sibling_windows(rng, count):
+    """C10/C07: nested schedulers with the same window size whose runs begin in the same
+    instant (both entry jobs, both behind the same job, or cousins): each window counts the
+    jobs of its own scheduler only"""
+    out = []
+    while len(out) < count:
+        w = rng.choice([1, 1, 2, 2, 3])
+        how = rng.choice(["entry", "behind", "cousins", "three"])
+
+        def stage():
+            k = rng.randint(w, w + 2)
+            return [J(*([rng.randrange(i)] if i and rng.random() < 0.25 else [])) for i in range(k)]
+        if how == "entry":
+            spec = S([S(stage()), S(stage())])
+        elif how == "behind":
+            spec = S([J(), S(stage(), 0), S(stage(), 0)])
+        elif how == "cousins":
+            spec = S([S([S(stage())]), S([S(stage()), J()])])
+        else:
+            spec = S([S(stage()), S(stage()), S(stage())])
+        shape = tree(spec)
+        kind, parent, _ = shape
+        n = len(kind)
+        leaves = [i for i in range(n) if kind[i] == "sched" and
+                  all(kind[k] == "job" for k in range(n) if parent[k] == i + 1) and i > 0]
+        win = [0] * n
+        for i in leaves:
+            win[i] = w
+        if rng.random() < 0.2:
+            win[0] = rng.choice([0, w, w + 1])
+        dur = [rng.choice([1, 1, 2]) if kind[i] == "job" else 0 for i in range(n)]
+        sc = _mk(rng, shape, dur=dur, win=win,
+                 crit=[kind[i] == "sched" and rng.random() < 0.5 for i in range(n)],
+                 out=[rng.choice(["ok"] * 5 + ["exc"]) if kind[i] == "job" else "ok" for i in range(n)])
+        sc["harness"]["k"] = [0] * n if rng.random() < 0.6 else sc["harness"]["k"]
+        out.append(sc)
+    return out
+
+
 def failed_nested_successors(rng, count):
     """C03/C10/C01: a non-critical nested scheduler fails (a critical job inside raises,
     or its own timeout fires) and jobs of the parent are waiting behind it"""
@@ -683,10 +722,11 @@ STRUCTURED = {
     "C04": [(critical_instants, 0.15), (deadlines, 0.2), (crit_chains, 0.15), (simultaneous_failures, 0.15)],
     "C05": [(critical_instants, 0.35), (simultaneous_failures, 0.15), (nested_abort_ties, 0.1), (between_waits, 0.06)],
     "C06": [(window_failures, 0.3), (simultaneous_failures, 0.1)],
-    "C07": [(window_failures, 0.25), (tie_groups, 0.1), (critical_instants, 0.1), (window_ties, 0.15)],
+    "C07": [(window_failures, 0.25), (tie_groups, 0.1), (critical_instants, 0.1), (window_ties, 0.15),
+            (sibling_windows, 0.06)],
     "C08": [(deadlines, 0.45), (nested_abort_ties, 0.1), (between_waits, 0.05)],
     "C09": [(forevers, 0.45), (empty_stages, 0.04), (cancel_cliques, 0.04)],
-    "C10": [(crit_chains, 0.25), (nested_gap, 0.15), (failed_nested_successors, 0.15)],
+    "C10": [(crit_chains, 0.25), (nested_gap, 0.15), (failed_nested_successors, 0.15), (sibling_windows, 0.08)],
     "C11": [(shutdown_grid, 0.3), (deadlines, 0.15), (nested_gap, 0.1), (nested_abort_ties, 0.1), (between_waits, 0.06),
             (cancel_cliques, 0.05)],
     "C12": [(joins, 0.15), (small_perms, 0.15), (tie_groups, 0.15), (window_ties, 0.25)],
@@ -725,6 +765,9 @@ def scenarios(prop, count, seed):
         hrn["lateattr"] = rng.random() < 0.2
         hrn["awaitable"] = rng.random() < 0.2
         hrn["watch"] = rng.random() < 0.2       # schedulers are given a Watch (debug time display)
+        hrn["peek"] = rng.random() < 0.2        # the read-only API is used while the run goes on
+        hrn["zerowin"] = rng.random() < 0.3     # jobs_window=0 for "no limit" (instead of None)
+        hrn["sabsorb"] = rng.random() < 0.3     # co_shutdown() handlers that absorb their cancellation
         # now and then the caller cancels the whole run from outside
         if rng.random() < {"C11": 0.15, "C13": 0.08, "C05": 0.05}.get(prop, 0.03):
             sc["cfg"]["ucancel"] = rng.choice([0, 1, 1, 2, 3])
